@@ -25,12 +25,13 @@ const (
 
 // Buf is one caller-owned buffer.
 type Buf struct {
-	Op    string // the operation it was (first) passed to
-	Role  string // "msg", "aux", "ct", "salt", ...
-	full  []byte // canary | data | spare | canary
-	n     int
-	spare int
-	want  []byte // expected contents of full
+	ScratchUsed bool   // set by Delivered: the callee wrote into p[n:len(p)] of an output buffer
+	Op          string // the operation it was (first) passed to
+	Role        string // "msg", "aux", "ct", "salt", ...
+	full        []byte // canary | data | spare | canary
+	n           int
+	spare       int
+	want        []byte // expected contents of full
 	// sink: a buffer the caller hands over to be filled (io.Reader.Read(p)). While the call is open its data region
 	// may change; when it has returned n, data[:n] is whatever was delivered and everything else must be untouched.
 	sink bool
@@ -109,7 +110,11 @@ func (b *Buf) Delivered(n int) {
 	if n > b.n {
 		n = b.n
 	}
-	copy(b.want[canaryLen:canaryLen+n], b.full[canaryLen:canaryLen+n])
+	// io.Reader: "Even if Read returns n < len(p), it may use all of p as scratch space during the call" — the whole
+	// data region p[:len(p)] of an OUTPUT buffer is the callee's to write; only the spare capacity beyond len(p) and the
+	// guards are not. ScratchUsed tells whether p[n:] was touched (a probe, not a finding).
+	b.ScratchUsed = !bytes.Equal(b.want[canaryLen+n:canaryLen+b.n], b.full[canaryLen+n:canaryLen+b.n])
+	copy(b.want[canaryLen:canaryLen+b.n], b.full[canaryLen:canaryLen+b.n])
 	b.open = false
 }
 
